@@ -97,7 +97,7 @@ def hier_models(rnd, n):
 
 def tie(ctx, model_ok=True):
     rnd = random.Random(ctx['seed'] * 17 + 303)
-    n_models = 60 if ctx['tier'] == 'quick' else 1500
+    n_models = 60 if ctx['tier'] == 'quick' else 500
     nperm = 3 if ctx['tier'] == 'quick' else 6
     variants = {}
 
